@@ -188,7 +188,19 @@ func runC17Containers(c *Ctx) {
 					s += pathOf(v.Results[0]) + ";"
 				}
 			})
-			ok := strings.Contains(s, "(call:(*types.Transaction).Gas(tx) > gasLimit)") && strings.Contains(s, "(call:(*math/big.Int).Cmp(call:(*types.Transaction).Cost(tx), costLimit) > const:0)")
+			// both comparisons are present, however they are written (mirrored operands, Cmp with exchanged operands)
+			gasOver, costOver := false, false
+			allInstrs(an, false, func(_ *ssa.Function, in ssa.Instruction) {
+				if b, isBin := in.(*ssa.BinOp); isBin {
+					if m, pt := matchCond(Cmp(`^call:\(\*types\.Transaction\)\.Gas\(tx\)$`, ">", `^gasLimit$`), b); m && pt {
+						gasOver = true
+					}
+					if m, pt := matchCond(Cmp(`^call:\(\*math/big\.Int\)\.Cmp\(call:\(\*types\.Transaction\)\.Cost\(tx\), costLimit\)$`, ">", `^const:0$`), b); m && pt {
+						costOver = true
+					}
+				}
+			})
+			ok := gasOver && costOver
 			c.Check("F", fnName(fn)+"/removes transactions whose gas exceeds the gas limit or whose cost exceeds the balance", ok, an.Pos(), 1, clip(s, 300))
 		}
 		c.Guarded(fn, "invalidate later nonces", CallTo(`^\(\*mainchain/tx_pool\.txSortedMap\)\.filter$`, ""), G("strict (pending) list", True(`^l\.strict$`)))
